@@ -131,4 +131,49 @@ example : check { cexCheck with L := 35651584, cbound := fun _ => 35652256 } [1,
   show rollLen cexCheck.D [1, 2, 0] ≤ 35652256
   decide
 
+/-! ### the batched checker on a single-column action tensor
+
+KNOWN FINDING (`known_findings.json`: op-checker-single-column-batch-C06).  `get_reward` hands whole
+batches to the checker.  For a batch of `B ≥ 2` rows whose action tensor has ONE column,
+`gather_by_index` squeezes the step dimension and `get_tour_length` rolls over the batch: every row
+is tested with the perimeter of the polygon through the rows' selected nodes.  The verdict on the
+batch is therefore not the conjunction of the verdicts on its rows. -/
+
+/-- the batch verdict is the conjunction of the row verdicts -/
+def check_single_column_batch_statement : Prop :=
+  ∀ (rows : List (Inst × Nat)) (X : Nat → Nat → Int), (∀ r, X r r = 0) →
+    (∀ ia ∈ rows, ia.1.D ia.2 ia.2 = 0) →
+    checkSingleColumnBatch rows X = rows.all (fun ia => check ia.1 [ia.2])
+
+theorem sortNat_singleton (a : Nat) : sortNat [a] = [a] := by simp [sortNat]
+
+theorem check_singleton (i : Inst) (a : Nat) (hd : i.D a a = 0) :
+    check i [a] = (decide (a ≤ i.n) &&
+      (List.range (i.n + 1)).all (fun j => Params.opCheckLenCmp.eval 0 (i.cbound j))) := by
+  simp only [check, sortNat_singleton, adjOk, List.all_cons, List.all_nil, Bool.and_true]
+  have : rollLen i.D [a] = 0 := by simp [rollLen, roll1, hd]
+  rw [this]
+
+/-- two rows `[0]`, `[0]` of two instances (n = 0, checker bound 0.25 + 1e-5 in units of 2^-26) whose
+depots are 0.5 apart: each row alone is accepted (length 0), the batch is rejected (perimeter 1.0) -/
+def cexRow : Inst :=
+  { n := 0, L := 16777216, D := fun _ _ => 0, prize := fun _ => 0, budget := fun _ => 16777149,
+    cbound := fun _ => 16777888 }
+
+/-- **C06 (OP), batched checker, counterexample.** -/
+theorem check_single_column_batch_counterexample : ¬ check_single_column_batch_statement := by
+  intro h
+  have := h [(cexRow, 0), (cexRow, 0)] (fun r r' => if r = r' then 0 else 33554432)
+    (by intro r; simp) (by intro ia hia; simp at hia; subst hia; rfl)
+  rw [List.all_cons, List.all_cons, List.all_nil, check_singleton cexRow 0 rfl] at this
+  revert this
+  decide
+
+/-- **C06 (OP), batched checker, partial**: for a batch of one row the single-column path agrees with
+the row-wise checker. -/
+theorem check_single_column_batch_partial (i : Inst) (a : Nat) (X : Nat → Nat → Int) (hX : X 0 0 = 0)
+    (hd : i.D a a = 0) : checkSingleColumnBatch [(i, a)] X = check i [a] := by
+  rw [check_singleton i a hd]
+  simp [checkSingleColumnBatch, hX]
+
 end Rl4co.Op
